@@ -123,7 +123,13 @@ func ruleC09(c *Ctx) []*report.Result {
 				continue
 			}
 			pos := c.P.Pos(fn.Pos())
-			calls, straight := callsInOrder(fn)
+			// the method is read with the straight-line helpers of its own
+			// receiver type in place (a shared or extracted helper is not a
+			// different route)
+			fl := flatten(fn, func(g *ssa.Function) bool {
+				return c.P.InModule(g) && recvNamed(g) == impl.tname && !a.layer[g] && !returnsRestorer(g) && g.Name() != "restore"
+			})
+			calls, straight := fl.calls, fl.straight
 			if !straight {
 				r.Fail(construct+" / single path", pos, "method is expected to be straight-line code", nil, "")
 				continue
@@ -145,7 +151,7 @@ func ruleC09(c *Ctx) []*report.Result {
 					starts = append(starts, ci)
 				case f != nil && ((a.layer[f] && a.writers[f]) || (recvNamed(f) == tPP && !returnsRestorer(f) && c.reachesWriter(f))):
 					wc := writerCall{call: ci, callee: n}
-					for _, arg := range ci.Common().Args[1:] {
+					for _, arg := range fl.args(ci)[1:] {
 						if s, ok := constArgString(arg); ok {
 							wc.consts = append(wc.consts, s)
 						} else if wc.payload == nil {
@@ -155,7 +161,7 @@ func ruleC09(c *Ctx) []*report.Result {
 					writes = append(writes, wc)
 				case f != nil && (n == "internal/rfmt.Fprintf" || n == "internal/rfmt.Fprint"):
 					wc := writerCall{call: ci, callee: n}
-					args := ci.Common().Args
+					args := fl.args(ci)
 					if s, ok := constArgString(args[1]); ok {
 						wc.consts = append(wc.consts, s)
 					}
@@ -168,7 +174,13 @@ func ruleC09(c *Ctx) []*report.Result {
 					// route into the writer layer is not
 					if f != nil && c.P.InModule(f) && c.reachesWriter(f) {
 						if _, isDefer := ci.(*ssa.Defer); !isDefer {
-							writes = append(writes, writerCall{call: ci, callee: n})
+							wc := writerCall{call: ci, callee: n}
+							for _, arg := range fl.args(ci) {
+								if _, ok := constArgString(arg); !ok && wc.payload == nil && arg != ssa.Value(fn.Params[0]) {
+									wc.payload = arg
+								}
+							}
+							writes = append(writes, wc)
 						}
 					}
 				}
@@ -178,13 +190,13 @@ func ruleC09(c *Ctx) []*report.Result {
 				continue
 			}
 			w := writes[0]
-			r.Check(w.payload != nil && stripConvAll(stripIface(w.payload)) == param, construct+" / payload is the parameter", pos, "the value written is not the method's parameter")
+			r.Check(w.payload != nil && fl.deep(w.payload) == param, construct+" / payload is the parameter", pos, "the value written is not the method's parameter")
 			if impl.pkg == "builder" {
 				// the mode in force at the write, for every entry mode of the
 				// builder (A-fmt write events), must be the mode of the side
 				wantMode := map[string]string{"safe": "SafeEscaped", "unsafe": "UnsafeEscaped"}[sp.side]
 				evs := evByFn[fn]
-				if strings.HasSuffix(w.callee, ".Fprintf") || strings.HasSuffix(w.callee, ".Fprint") {
+				if strings.HasSuffix(w.callee, ".Fprintf") || strings.HasSuffix(w.callee, ".Fprint") || (len(evs) == 0 && len(fl.inlined) > 0) {
 					// the write happens inside rfmt.Fprint*, shared by several
 					// emitters: decide from the mode set before the call, in
 					// this function or in a one-line helper it calls
@@ -193,7 +205,7 @@ func ruleC09(c *Ctx) []*report.Result {
 						if ci == w.call {
 							break
 						}
-						if m, ok := modeSetBy(ci); ok {
+						if m, ok := modeSetByArgs(ci, fl.args(ci)); ok {
 							mode = m
 						}
 					}
@@ -220,7 +232,7 @@ func ruleC09(c *Ctx) []*report.Result {
 				}
 				_ = setModes
 			} else {
-				r.Check(len(starts) == 1 && instrBefore(starts[0], w.call), construct+" / classification bracket", pos, "the printer must bracket the write with exactly one start*/restore pair")
+				r.Check(len(starts) == 1 && fl.before(starts[0], w.call), construct+" / classification bracket", pos, "the printer must bracket the write with exactly one start*/restore pair")
 				// configurations from A-fmt
 				evs := evByFn[fn]
 				if f := w.call.Common().StaticCallee(); f != nil && recvNamed(f) == tPP {
@@ -326,12 +338,16 @@ func (c *Ctx) reachesWriter(fn *ssa.Function) bool {
 // modeSetBy: ci is Buffer.SetMode(<const>) or a call of a one-block helper
 // whose only call is such a SetMode; returns the constant.
 func modeSetBy(ci ssa.CallInstruction) (int64, bool) {
+	return modeSetByArgs(ci, ci.Common().Args)
+}
+
+func modeSetByArgs(ci ssa.CallInstruction, args []ssa.Value) (int64, bool) {
 	f := ci.Common().StaticCallee()
 	if f == nil {
 		return 0, false
 	}
 	if f.Name() == "SetMode" && recvNamed(f) == tBuffer {
-		return intConst(ci.Common().Args[1])
+		return intConst(args[1])
 	}
 	if len(f.Blocks) != 1 {
 		return 0, false
